@@ -266,7 +266,15 @@ pub fn run_guarded(prop: &dyn Property, case: &CaseId, ctx: &mut Ctx) -> CaseRun
     }));
     match r {
         Ok(Ok(())) => CaseRun::Ok,
-        Ok(Err(f)) => CaseRun::Fail(f),
+        Ok(Err(f)) => {
+            // exactly the signature of a listed open finding: the case ends here, counted, not a violation
+            if ctx.is_known(&f.signature) {
+                ctx.known_hits.push(f.signature.clone());
+                CaseRun::Ok
+            } else {
+                CaseRun::Fail(f)
+            }
+        }
         Err(_) => {
             let info = take_panic().unwrap_or(PanicInfo {
                 file: "<unknown>".into(),
